@@ -18,6 +18,7 @@ import numpy as np
 import torch
 
 torch.set_num_threads(1)
+torch.set_default_dtype(torch.float64)   # as the repository's own tests do; cases switch with props.c02.with_dd
 import tntorch as tn
 
 assert os.path.realpath(os.path.dirname(tn.__file__)) == os.path.realpath(os.path.join(REPO, "tntorch")), \
